@@ -180,8 +180,12 @@ where
 		for id in lock_inputs {
 			let mut coin = batch.get(&id.0, &id.1).unwrap();
 			// an input that is already reserved by another transaction (or by an
-			// earlier lock of this same slate) or already spent must not be reserved again
-			if coin.status == OutputStatus::Locked || coin.status == OutputStatus::Spent {
+			// earlier lock of this same slate), already spent, or reverted by a
+			// re-org since it was selected must not be reserved
+			if coin.status == OutputStatus::Locked
+				|| coin.status == OutputStatus::Spent
+				|| coin.status == OutputStatus::Reverted
+			{
 				return Err(Error::GenericError(format!(
 					"Output {} is already {}, transaction {} cannot reserve it",
 					coin.key_id, coin.status, slate_id
